@@ -5,6 +5,7 @@ LEVEL = 'proof'
 
 
 def build(ctx):
+    ctx.task('contracts.pipeline:task_pipeline')      # assemble() establishes what each pass contract assumes
     from contracts import compress
     compress.lemma_obligations(ctx)
     common.pass_tasks(ctx, ['transform_compressible', 'resolve_immediates'])
@@ -15,7 +16,7 @@ def build(ctx):
 
 
 def bounded(ctx):
-    common.suites(ctx, ['cedge', 'mix', 'dist', 'far', 'pseudo', 'li', 'data', 'rand'], {'modes', 'decode'})
+    common.suites(ctx, ['cedge', 'mix', 'dist', 'far', 'pseudo', 'li', 'data', 'rand', 'val', 'hilo'], {'modes', 'decode'})
     ctx.task('bounded.tasks:split_task', 'cedge')
     ctx.task('bounded.tasks:split_task', 'mix')
 
